@@ -11,6 +11,15 @@ import (
 
 func (e *Exec) emit(st *State, ev Event) {
 	st.trace = append(st.trace, ev)
+	if !ev.Deep && e.disc == nil {
+		if ev.MayLoop != nil {
+			for _, n := range ev.MayLoop {
+				e.seenEvents[n] = true
+			}
+		} else {
+			e.seenEvents[ev.Name] = true
+		}
+	}
 }
 
 // callInfo describes a resolved call.
